@@ -175,6 +175,48 @@ CHECKS = {
 ALL = ["C%02d" % i for i in range(1, 21)]
 
 
+# additions of the third round (appended to the technique / level text of the table above)
+CONC = ("; the function is also executed by two threads at once under the deterministic scheduler (spec/Cache.tla shows the class of defects: "
+        "a shared cache or lazily built table filled in several steps), one preemption at every source line, each execution in a child forked "
+        "from the untouched process")
+ADDENDA = {
+    "C01": ("; two more build routes: the content set over an earlier one with repeated names (avps setter, cleanup + extend), Grouped AVPs serialised and measured while they grow", ""),
+    "C02": (CONC + " (plus PCT schedules with two preemptions); the well-formed vectors again after 135 streams refused inside Grouped AVPs", ""),
+    "C03": ("; live injections include runaway Grouped nesting, V-bit flips on addressing AVPs and another vendor's AVP under a base-protocol code", ""),
+    "C06": ("; spec/Validate.tla (the validators' verdict) over every single and double mutation of each base message, including vendor-specific "
+            "AVPs under base-protocol codes, with theorems OnlyPeer / NoForeignIdentity and the historic count-only verdict as vacuity self-test; "
+            "a DPA is injected in both forms (Closing leaves on any DPA)", ""),
+    "C07": ("; two node objects with different identities in one scheduler (templates belong to a node object); the application submitting "
+            "messages in the middle of the tick that answers a DWR (sweep over the source lines of the tick)", ""),
+    "C08": ("; 'Closed implies the transport has been released' is evaluated after every scheduler step; unusual DPAs (E bit, no Result-Code) after a local close", ""),
+    "C09": ("; NAI user names, extra AVPs of an unknown vendor under base-protocol codes", ""),
+    "C10": ("; Grouped lists with a repeated mandatory member and the others absent; text around a DiameterURI", ""),
+    "C11": ("; bulk operations refused part-way (an element that is not an AVP)", ""),
+    "C12": ("; Decorate / SentOk now range over EVERY answer a route function may return (no Session-Id of its own, E flag already set)", ""),
+    "C13": ("; whole-stack stage (spec/Stack.tla: peer -> connection -> Worker.recv_handler -> Bromelia.main -> per-message threads -> "
+            "Worker.set_outgoing_message / send_handler -> connection -> peer; model-checked with liveness, deviations D_NoSendLock and "
+            "D_QueueBeforeRegister as vacuity self-test): a real node + the library's Worker loops + Bromelia.main under the scheduler with "
+            "end-to-end monitors (exactly one answer per peer request ON THE WIRE), every execution validated by TLC (Trace_Stack); answers built "
+            "for another application must leave on the request's connection",
+            " Whole stack: Stack.tla for 1-2 callers x 1-2 peer requests; 60 (quick) / 1500 (thorough) scheduled executions, each trace-validated."),
+    "C14": ("; Resend.tla extended with a repeated first answer (Dup) and unregistration by identity (PopByIdentity; by key is the tree before "
+            "F-C14-pop-by-key), sweep over the repeated answer's dispatcher; answers without a Result-Code; a repeated answer while the same "
+            "Hop-by-Hop is outstanding on another interface; whole-stack stage (spec/Stack.tla, Trace_Stack) as in C13 with local callers in every execution",
+            " Whole stack: Stack.tla with liveness; 60 / 1500 executions trace-validated."),
+    "C15": ("; Ids.tla extended with constructions that fail after their draws (IdAbort; deviation ReleaseLast; invariant Registered); after every "
+            "concurrent execution the source repeats every identifier handed out; block reads of the random source are honoured by the doubles", ""),
+    "C16": ("; spec/SessionConc.tla (concurrent generation: load / store / read of the counter, UseLock) model-checked, and two threads generating "
+            "Session-Ids at the same time with one preemption at every source line of the generator (forked children, the library's locks virtualised)", ""),
+    "C17": (CONC + "; another vendor's AVP with code 268 next to the Result-Code (built and decoded)", ""),
+    "C18": (CONC + " (both threads doing the first TBCD call of their process)", ""),
+    "C20": ("; a rejected bit operation changes nothing (word, serialisation, later accessor results)", ""),
+}
+for _p, (_t, _l) in ADDENDA.items():
+    if _p in CHECKS:
+        t, text, note, ref = CHECKS[_p]
+        CHECKS[_p] = (t + _t, text + _l, note, ref)
+
+
 def main():
     hooks_commits = []
     checks = []
